@@ -2,7 +2,7 @@
    bool, option, unit, list, prod, sumbool map to OCaml's; N/Z/positive/nat/byte stay Coq
    datatypes).  Not part of _CoqProject: compiled by ./check in _build/extract. *)
 From Coq Require Import extraction.Extraction ExtrOcamlBasic.
-From RS Require Import Base.Bytes Base.Dec Base.Endian Spec.Crc16 Spec.Slot Spec.Crc64 Model.Slot Model.Digest Model.RespCodec Model.Filter Model.CmdFilter Gen.CmdTable Model.Backlog Model.Pipe Model.Supervisor Model.Checkpoint Model.Lzf Model.Rdb Spec.RdbFormat Spec.RdbRecords Gen.Rdb Spec.Compact Model.Cupcake Model.Incr Model.Handoff Model.Offsets Model.Restore Model.Workers Model.Rump Proofs.RumpProofs Model.Decode.
+From RS Require Import Base.Bytes Base.Dec Base.Endian Spec.Crc16 Spec.Slot Spec.Crc64 Model.Slot Model.Digest Model.RespCodec Model.Filter Model.CmdFilter Gen.CmdTable Spec.RedisKeySpecs Model.Backlog Model.Pipe Model.Supervisor Model.Checkpoint Model.Lzf Model.Rdb Spec.RdbFormat Spec.RdbRecords Gen.Rdb Spec.Compact Model.Cupcake Model.Incr Model.Handoff Model.Offsets Model.Restore Model.Workers Model.Rump Proofs.RumpProofs Model.Decode.
 Extraction Language OCaml.
 Set Extraction KeepSingleton.
 Extraction "model.ml"
@@ -12,7 +12,7 @@ Extraction "model.ml"
   digest_write digest_sum digest_writes cupcake_digest ext_digest rdb_footer_ok create_value_dump verify_dump
   check_version_checksum payload_fast
   encode dec dec_stream itos parse_int64
-  filter_key filter_db filter_slot filter_command handle_filter_key get_match_keys get_match_keys_pinned cmd_table lookup_cmd
+  filter_key filter_db filter_slot filter_command handle_filter_key get_match_keys get_match_keys_pinned cmd_table lookup_cmd redis_key_specs
   new_ring read_at write close data_range reader_valid mem_align file_align
   pinit pstep pb_buffered pb_available
   get_slot_state node_state
